@@ -41,6 +41,9 @@ pub struct Case {
     pub password: Bytes,
     pub cached: bool,
     pub ops: Vec<Op>,
+    /// generation of base objects whose generation is not 0 (bases with freed and re-used numbers)
+    #[serde(default)]
+    pub gens: Vec<(u64, u64)>,
 }
 
 fn tmp_path() -> String {
@@ -101,7 +104,8 @@ pub fn check_case(c: &Case, info: &mut CaseInfo) -> Result<(), Failure> {
     }
     for (n, v) in &base_objects {
         if v.is_some() && !is_xref_like(v) && *n != root_id && *n != pages_id && *n != 0 && !critical.contains(n) {
-            known.push(PlainRef { id: *n, gen: 0 });
+            let gen = c.gens.iter().find(|(k, _)| k == n).map(|(_, g)| *g).unwrap_or(0);
+            known.push(PlainRef { id: *n, gen });
         }
     }
     let n_base_known = known.len();
@@ -444,10 +448,10 @@ pub fn replay(_ctx: &Ctx, _check: &str, art: &serde_json::Value, info: &mut Case
 
 pub fn run(ctx: &Ctx) {
     // bases: corpus (classic, xref stream + object streams, junk before the header, ...) and generated documents
-    let mut bases: Vec<(String, Vec<u8>, Vec<u8>)> = Vec::new();
+    let mut bases: Vec<(String, Vec<u8>, Vec<u8>, Vec<(u64, u64)>)> = Vec::new();
     for f in corpus::load(&ctx.verif_dir, false) {
         if f.data.len() < 100_000 && !f.name.contains("encrypted") && !f.name.contains("password") {
-            bases.push((f.name, f.data, f.password));
+            bases.push((f.name, f.data, f.password, vec![]));
         }
     }
     let strat = docgen::spec_strategy();
@@ -455,7 +459,16 @@ pub fn run(ctx: &Ctx) {
         let mut spec = crate::engine::runner::nth_case(&strat, ctx.seed.wrapping_mul(131).wrapping_add(9), k);
         spec.encrypt = 0;
         let b = docgen::build(&spec);
-        bases.push((format!("generated-{}[{}]", k, b.labels.iter().filter(|l| l.starts_with("xref/") || l.starts_with("storage/") || l.starts_with("update/")).cloned().collect::<Vec<_>>().join(",")), b.file, b.password));
+        bases.push((format!("generated-{}[{}]", k, b.labels.iter().filter(|l| l.starts_with("xref/") || l.starts_with("storage/") || l.starts_with("update/")).cloned().collect::<Vec<_>>().join(",")), b.file, b.password, vec![]));
+    }
+    // files with a history of their own (C02's generator): several sections, freed numbers re-used with a bumped
+    // generation, objects moving between direct and compressed storage
+    let hs = crate::props::c02::history_strategy();
+    for k in 0..ctx.tier.pick(12, 150) {
+        let h = crate::engine::runner::nth_case(&hs, ctx.seed.wrapping_mul(59).wrapping_add(17), k);
+        let r = crate::props::c02::render(&h);
+        let gens: Vec<(u64, u64)> = r.expect.iter().filter(|(_, g, e)| *g > 0 && matches!(e, crate::props::c02::Expect::Value(_))).map(|(n, g, _)| (*n, *g)).collect();
+        bases.push((format!("history-{}[update/{}-sections{}]", k, h.secs.len(), if gens.is_empty() { "" } else { ",generation>0" }), r.file.0.clone(), vec![], gens));
     }
     let nb = bases.len();
     let cases = ctx.tier.pick(2_000, 150_000);
@@ -464,8 +477,8 @@ pub fn run(ctx: &Ctx) {
         cases,
         || (0usize..nb, any::<bool>(), proptest::collection::vec(op(), 1..26)),
         |(bi, cached, ops), info| {
-            let (name, data, pw) = &bases[*bi];
-            let c = Case { base_name: name.clone(), base: Bytes(data.clone()), password: Bytes(pw.clone()), cached: *cached, ops: ops.clone() };
+            let (name, data, pw, gens) = &bases[*bi];
+            let c = Case { base_name: name.clone(), base: Bytes(data.clone()), password: Bytes(pw.clone()), cached: *cached, ops: ops.clone(), gens: gens.clone() };
             info.label(format!("base/{}", if name.starts_with("generated") { name.split('[').nth(1).unwrap_or("generated").trim_end_matches(']').to_string() } else { name.clone() }));
             info.label(if *cached { "cached" } else { "uncached" });
             let has_save_after_write = {
@@ -489,4 +502,4 @@ pub fn run(ctx: &Ctx) {
     );
 }
 
-pub const RULE: &str = "cases = (base file, cached/uncached, history of 1-25 operations over {create v, update r v (r: base direct object, base compressed object, object created earlier, updated repeatedly with different dictionaries), promise, fulfil, read through the open document, save, failing save (unfulfilled promise) then repair and retry}); bases: unencrypted corpus files incl. offset.pdf (junk before the header) and xelatex.pdf (xref stream + object streams) and generated documents covering every storage form; oracle = model (reference -> last value written): reads through the open document (resolve and typed get) reflect each write at once; after every successful save the previous revision is a byte prefix of the output and a fresh load (cached and uncached) resolves every written reference - the very reference the caller passed or was handed - to the last value and every untouched object to its previous value, page count unchanged; non-trivial = a save after a write; distinct by (base, history)";
+pub const RULE: &str = "cases = (base file, cached/uncached, history of 1-25 operations over {create v, update r v (r: base direct object, base compressed object, object created earlier, updated repeatedly with different dictionaries), promise, fulfil, read through the open document, save, failing save (unfulfilled promise) then repair and retry}); bases: unencrypted corpus files incl. offset.pdf (junk before the header) and xelatex.pdf (xref stream + object streams) generated documents covering every storage form, and files with a history of their own (several sections, freed numbers re-used with a bumped generation; references carry that generation); oracle = model (reference -> last value written): reads through the open document (resolve and typed get) reflect each write at once; after every successful save the previous revision is a byte prefix of the output and a fresh load (cached and uncached) resolves every written reference - the very reference the caller passed or was handed - to the last value and every untouched object to its previous value, page count unchanged; non-trivial = a save after a write; distinct by (base, history)";
